@@ -66,6 +66,7 @@ class Oracles:
         self.stopped = False
         self.blocked_seen = False
         self.recv = {}            # sink -> [(t, item id)]
+        self.binds = {}           # edge -> BindModel
 
     # ---- plumbing --------------------------------------------------------------------------------
     def fault(self, k, n=1):
@@ -151,6 +152,10 @@ class Oracles:
                 self.h_failed(r)
             elif k == "pdelay":
                 self.h_pdelay(r)
+            elif k == "avail":
+                self.bind_of(r[3]).avail(r[4], self.run.items.get(r[4]))
+            elif k == "grant" and r[5] == "g":
+                self.h_grant_get(r)
         self.check_capacity()
         self.check_held_caps()
 
@@ -200,6 +205,14 @@ class Oracles:
         if where != ("edge", eid):
             self.violate("C03", "get-of-item-not-in-edge", self.elabel(eid), f"{actor} got {iid} from {eid} but the item is at {where}")
         er.inside.pop(iid, None)
+        b = self.bind_of(eid)
+        if not b.broken:
+            why = b.get(tok, iid)
+            if why:
+                b.broken = True
+                self.violate("C06", "discipline", self.elabel(eid) + "," + self.nlabel(actor), f"edge {eid}: {why}")
+        else:
+            b.forget(iid)
         if actor != er.spec["dst"]:
             self.violate("C03", "get-by-foreign-node", self.elabel(eid), f"{actor} got {iid} from {eid} whose destination node is {er.spec['dst']}")
         nr = self.nrec.get(actor)
@@ -214,6 +227,27 @@ class Oracles:
             return
         self.node_pull(nr, iid, seq, t, ii, eid)
 
+    # ---- C06 on every edge: the same nondeterministic binding model as in Layer A ---------------------------
+    def bind_of(self, eid):
+        b = self.binds.get(eid)
+        if b is None:
+            from .bindmodel import BindModel
+            er = self.erec[eid]
+            b = self.binds[eid] = BindModel(er.spec.get("mode", "FIFO") if er.type == "buffer" else "FIFO")
+        return b
+
+    def h_grant_get(self, r):
+        _, seq, t, eid, tok, kind, actor = r
+        b = self.bind_of(eid)
+        if b.broken:
+            return
+        res = b.grant(tok)
+        if res == "no-backing":
+            b.broken = True
+            self.violate("C02", "grant-without-item", self.elabel(eid), f"edge {eid}: retrieval reservation of {actor} granted although no available unreserved item exists")
+        elif res == "overflow":
+            b.broken = True
+
     def h_reserve(self, r):
         k, seq, t, eid, tok, actor = r
         nr = self.nrec.get(actor)
@@ -222,6 +256,8 @@ class Oracles:
 
     def h_cancel(self, r):
         k, seq, t, eid, tok, actor, was = r
+        if was == "granted" and k == "cg":
+            self.bind_of(eid).cancel(tok)
         if was == "granted":
             self.fault("F2_cancel_granted")
         elif was == "pending":
